@@ -14,14 +14,14 @@ Fixpoint pair_up (l : list value) : list (value * value) :=
   | _ => []
   end.
 
-Fixpoint dec (o : map_order) (fuel : nat) (l : list Z) : option (value * list Z) :=
+Fixpoint dec_sh (o : map_order) (sh : option value) (fuel : nat) (l : list Z) : option (value * list Z) :=
   match fuel with
   | O => None
   | S fuel =>
       let many := fix many (n : nat) (l : list Z) : option (list value * list Z) :=
         match n with
         | O => Some ([], l)
-        | S n => match dec o fuel l with
+        | S n => match dec_sh o sh fuel l with
                  | Some (v, l') => match many n l' with
                                    | Some (vs, l'') => Some (v :: vs, l'')
                                    | None => None
@@ -46,9 +46,12 @@ Fixpoint dec (o : map_order) (fuel : nat) (l : list Z) : option (value * list Z)
                         end
       | 11 :: n :: r => Some (VPlain (takeZ n r), skipZ n r)
       | 12 :: n :: r => Some (VInvalid (takeZ n r), skipZ n r)
+      | 14 :: r => match sh with Some x => Some (x, r) | None => None end     (* the shared value of mode 4: structurally just that value *)
       | _ => None
       end
   end.
+
+Definition dec (o : map_order) := dec_sh o None.
 
 (* canonical form: integer width and iterable sizedness erased *)
 Fixpoint enc (v : value) : list Z :=
@@ -134,6 +137,55 @@ Definition run_o (o : map_order) (inp : list Z) : list Z :=
                b2z (veq_o o b a);                                 (* a in [b]: any(|v| &v == value) *)
                b2z (match map_get_o o a [(b, VNone)] with Some _ => true | None => false end)]  (* {b: 1}[a] *)
           | None => [9]
+          end
+      | None => [9]
+      end
+  | 4 :: r =>
+      (* aliasing: structurally the same as mode 0 on the expanded values *)
+      match dec o fuel r with
+      | Some (x, r1) =>
+          match dec_sh o (Some x) fuel r1 with
+          | Some (a, r2) =>
+              match dec_sh o (Some x) fuel r2 with
+              | Some (b, _) =>
+                  let c := vcmp a b in
+                  [b2z (veq_o o a b); c2z c; b2z (hash_eq a b);
+                   b2z (match c with Lt => true | _ => false end); b2z (veq_o o a b); b2z (veq_o o b a);
+                   b2z (match map_get_o o a [(b, VNone)] with Some _ => true | None => false end)]
+              | None => [9]
+              end
+          | None => [9]
+          end
+      | None => [9]
+      end
+  | 5 :: opid :: r =>
+      (* repeatable enumeration: values are immutable, every observation of r sees the same items *)
+      match dec o fuel r with
+      | Some (x, _) =>
+          if 100 <=? opid then [7] else
+          let res :=
+            match opid with
+            | 0 => f_reverse x
+            | 1 => f_items x
+            | 2 => f_dictsort false false false x
+            | 3 => f_slice 2 None x
+            | 4 => f_batch 2 None x
+            | 5 => f_map_attr [97] VNone x
+            | 6 => f_select false x
+            | 7 => f_select true x
+            | 8 => f_sort false false None x
+            | 9 => f_unique false None x
+            | 10 => f_list x
+            | 11 => bind (f_reverse x) f_reverse
+            | _ => Ok x
+            end in
+          match res with
+          | Ok rv =>
+              0 :: enc_out (f_list rv) ++ enc_out (f_list rv) ++ enc_out (f_length rv) ++ enc_out (f_list rv) ++
+                   enc_out (bind (f_reverse rv) f_list) ++ enc_out (f_list rv)
+          | Err c => [1; c]
+          | Panic => [2]
+          | OutOfGas => [8]
           end
       | None => [9]
       end
